@@ -6,8 +6,12 @@ package props
 // statement, compared with the trace recorded by instrumented closures, on two evaluations.
 
 import (
+	"context"
 	"errors"
 	"fmt"
+	"io"
+	"io/fs"
+	"net"
 	"runtime"
 	"strings"
 	"sync"
@@ -51,6 +55,14 @@ type C20Step struct {
 	Reenter bool `json:"reenter,omitempty"`
 	// TypedNil (with LogicErr): the error the logic returns is a nil pointer of an error type - a non-nil error value all the same
 	TypedNil bool `json:"typed_nil_error,omitempty"`
+	// ErrKind (with LogicErr): what the error is - "" a plain one, or one of the errors storages and contexts hand out when a
+	// request is abandoned or a record is missing. A failure is a failure whatever it says.
+	ErrKind string `json:"error_kind,omitempty"`
+}
+
+var c20ErrKinds = map[string]error{
+	"canceled": context.Canceled, "wrapped-canceled": fmt.Errorf("storage: %w", context.Canceled), "deadline": context.DeadlineExceeded,
+	"eof": io.EOF, "unexpected-eof": fmt.Errorf("read: %w", io.ErrUnexpectedEOF), "closed": net.ErrClosed, "not-exist": fs.ErrNotExist, "empty-message": errors.New(""),
 }
 
 type C20Case struct {
@@ -188,6 +200,9 @@ func c20BuildOn(steps []C20Step, cur *[]C20Step, tr *c20Trace) *checker.Checker 
 						return e
 					}
 					return c20SliceErr(nil)
+				}
+				if e, ok := c20ErrKinds[s.ErrKind]; ok {
+					return e
 				}
 				return errC20
 			}
@@ -339,6 +354,7 @@ var c20Variants = []C20Step{
 	{Kind: kNotEmpty, Value: "", PanicCB: true},
 	{Kind: kValueStep, Reenter: true},
 	{Kind: kLogic, LogicErr: true, TypedNil: true},
+	{Kind: kLogic, LogicErr: true, ErrKind: "wrapped-canceled"},
 	{Kind: kCondNotEmpty, Cond: true, Value: "x"},
 	{Kind: kCondNotEmpty, Cond: true, Value: ""},
 	{Kind: kCondNotEmpty, Cond: false, Value: ""},
@@ -443,13 +459,14 @@ func TestC20Enum(t *testing.T) {
 	})
 }
 
-const c20Rule = "chains over the checker API: (a) every sequence of the 21 step variants (8 kinds x outcomes pass/fail/condition-false, plus an inequality by one trailing slash, a failing step whose callback panics, a step that evaluates the whole chain again from inside itself, and a logic step failing with a typed-nil error value) up to the stated length, enumerated exhaustively, each evaluated twice (three times when a step re-enters: inner and outer evaluations must each look like an evaluation of their own); (b) rapid-generated chains up to length 40 with random strings (incl. pairs that differ only by a trailing slash or blank, by letter case, by a prefix), bounds (0 = no bound, min>max allowed), value lists and failure callbacks that panic. Non-trivial: length >= 2 with a failing step that is not the last. Enumerated chains are distinct by construction; generated chains are distinct by (kind, reference outcome) vector."
+const c20Rule = "chains over the checker API: (a) every sequence of the 22 step variants (8 kinds x outcomes pass/fail/condition-false, plus an inequality by one trailing slash, a failing step whose callback panics, a step that evaluates the whole chain again from inside itself, a logic step failing with a typed-nil error value, and one failing with a wrapped context.Canceled) up to the stated length, enumerated exhaustively, each evaluated twice (three times when a step re-enters: inner and outer evaluations must each look like an evaluation of their own); (b) rapid-generated chains up to length 40 with random strings (incl. pairs that differ only by a trailing slash or blank, by letter case, by a prefix), bounds (0 = no bound, min>max allowed), value lists, failure callbacks that panic and logic errors of the kinds storages and contexts hand out (cancellation, deadline, EOF, closed, not-exist, empty message). Non-trivial: length >= 2 with a failing step that is not the last. Enumerated chains are distinct by construction; generated chains are distinct by (kind, reference outcome) vector."
 
 func genC20Step(t *rapid.T) C20Step {
 	s := C20Step{Kind: rapid.IntRange(0, 7).Draw(t, "kind")}
 	str := rapid.OneOf(rapid.Just(""), rapid.StringMatching(`[a-z ]{0,12}`), rapid.StringMatching(`[a-zA-Z/:. ]{1,12}`), rapid.SampledFrom([]string{"/", "https://idp.example/saml/SSO", "https://idp.example/saml/SSO/", " ", "a//", "\x00", "é", "日本語", "üüüü", "𝄞𝄞", "naïve café", "\xff\xfe", "e\u0301"}))
 	s.PanicCB = rapid.IntRange(0, 5).Draw(t, "panic-in-callback") == 0
 	s.TypedNil = rapid.IntRange(0, 3).Draw(t, "typednil") == 0
+	s.ErrKind = rapid.SampledFrom([]string{"", "", "", "canceled", "wrapped-canceled", "deadline", "eof", "unexpected-eof", "closed", "not-exist", "empty-message"}).Draw(t, "errkind")
 	s.Reenter = (s.Kind == kLogic || s.Kind == kValueStep || s.Kind == kCondLogic) && rapid.IntRange(0, 3).Draw(t, "reenter") == 0
 	switch s.Kind {
 	case kNotEmpty:
